@@ -541,3 +541,24 @@ def d_same_fields(a, b):
     return (a._years == b._years and a._months == b._months and a._days == b._days
             and a._hours == b._hours and a._minutes == b._minutes
             and a._seconds == b._seconds)
+
+
+def tp_same_fields(a, b):
+    """Two TimePoints in the same representation with the same field values and offset."""
+    return (a._year == b._year and a._month_of_year == b._month_of_year
+            and a._day_of_month == b._day_of_month and a._day_of_year == b._day_of_year
+            and a._week_of_year == b._week_of_year and a._day_of_week == b._day_of_week
+            and a._hour_of_day == b._hour_of_day and a._minute_of_hour == b._minute_of_hour
+            and a._second_of_minute == b._second_of_minute
+            and a._time_zone._hours == b._time_zone._hours
+            and a._time_zone._minutes == b._time_zone._minutes
+            and a._truncated == b._truncated)
+
+
+def tp_same_date_time(a, b):
+    """Same representation and the same date and time field values (zone aside)."""
+    return (a._year == b._year and a._month_of_year == b._month_of_year
+            and a._day_of_month == b._day_of_month and a._day_of_year == b._day_of_year
+            and a._week_of_year == b._week_of_year and a._day_of_week == b._day_of_week
+            and a._hour_of_day == b._hour_of_day and a._minute_of_hour == b._minute_of_hour
+            and a._second_of_minute == b._second_of_minute)
